@@ -150,4 +150,7 @@ pub fn run(ctx: &mut Ctx) {
             }
         }
     });
+
+    // hidden per-thread state: two-step histories from the initial state
+    crate::history::two_step_histories(ctx, "C10", crate::history::Family::Trunc);
 }
